@@ -298,3 +298,17 @@ pub proof fn lemma_name_exp_txt(p: Seq<u8>, off: int)
     lemma_exp_txt(p, off, p.len() as int, off, 16, 0, None, true);
     lemma_pcs_txt(e, 0, 0, 16, 0, true);
 }
+
+// ---- shared by the compressor, the renamer and the mutators
+// a clean pointer-free complete name
+pub open spec fn is_cname(s: Seq<u8>) -> bool { pcs_walk(s, 0, 0) == Some(s.len() as int) }
+pub proof fn lemma_pcs_plain(p: Seq<u8>, off: int, nlen: int)
+    requires pcs_walk(p, off, nlen).is_some()
+    ensures plain_walk(p, off, nlen) == pcs_walk(p, off, nlen)
+    decreases p.len() - off
+{ let b = p[off]; if b != 0 { lemma_pcs_plain(p, off + b + 1, nlen + b + 1); } }
+pub proof fn lemma_pcs_nlen(p: Seq<u8>, off: int, nlen: int, n2: int)
+    requires pcs_walk(p, off, nlen).is_some(), 0 <= n2 <= nlen
+    ensures pcs_walk(p, off, n2) == pcs_walk(p, off, nlen)
+    decreases p.len() - off
+{ let b = p[off]; if b != 0 { lemma_pcs_nlen(p, off + b + 1, nlen + b + 1, n2 + b + 1); } }
